@@ -1,5 +1,6 @@
 import Percival.Model.DHStep
 import Percival.Proofs.DH
+import Percival.Proofs.DhAns
 /-!
 # C10 — Diffie–Hellman: exact group-14 exponentiation, agreement, blinding-independent
 
@@ -206,5 +207,110 @@ theorem monitor_accepts_model :
 
 open Percival.Model.DHStep in
 example : monStep (.pub (List.replicate 32 0)) (.ok [1, 2, 3]) = false := by decide +kernel
+
+/-! ## The monitor reads what is printed
+
+`monitor_accepts_model` is about typed answers (`.ok v` with `v` the value the model computes, `.fail`).  The text
+`pmodel dhmon` reads is the implementation's L1 part, `ok <hex of the value it computed>` / `fail` — for the model:
+`Driver/Dh.optToks m`, the tokens of the *L2* part `pmodel dh` prints (its L1 part, `Driver/Dh.l1Toks`, is the
+specified value).  `Proofs/DhAns.lean`: hex printing and reading of values and of the operation line. -/
+
+open Percival.Model.DHStep Percival.Proofs.DhAns in
+/-- **Reading the printed tokens gives the typed answer**: for every outcome `m` of a call (`some v` / `none`)
+`parseAns (optToks m)` is `.ok v` / `.fail`; for every typed output `o` of `pmodel dh`, `parseAns (l1Toks o) = o.ans`
+(`.fail`, `.ok <specified value>`, and `.other` for the lines that are not answers of the failure-injection protocol);
+the printed texts split back into exactly these tokens at the spaces (no token contains one), and `render o` is the
+L1 tokens joined by single spaces, then ` | ` and the L2 part.  Not covered: that `Driver/Loop.loopMon` cuts the line
+with `String.splitOn " "` (not the `String.split ' '` of the statement) and `tools/vlib.py` at ` | `; `KAT/DhAns.lean`
+tests these on an output of every shape. -/
+theorem monitor_reads_printed_answer (o : Out) (m : Option (List UInt8)) :
+    (Driver.Dhmon.parseAns (Driver.Dh.optToks m) = ansOfOpt m ∧
+     Driver.Dsmon.splitCh ' ' (Driver.Dh.showOpt m) = Driver.Dh.optToks m) ∧
+    (Driver.Dhmon.parseAns (Driver.Dh.l1Toks o) = o.ans ∧
+     Driver.Dsmon.splitCh ' ' (" ".intercalate (Driver.Dh.l1Toks o)) = Driver.Dh.l1Toks o ∧
+     Driver.Dh.render o =
+       " ".intercalate (Driver.Dh.l1Toks o) ++ (match Driver.Dh.l2Str o with | some s => " | " ++ s | none => "")) :=
+  ⟨⟨parseAns_optToks m, split_opt m⟩, parseAns_l1Toks o, split_l1 o, rfl⟩
+
+/-- the tokens of real lines -/
+example : Driver.Dh.l1Toks (.value [0, 1, 254] (some [7])) = ["ok", "0001fe"] ∧
+    Driver.Dh.optToks (some [7]) = ["ok", "07"] ∧ Driver.Dh.optToks none = ["fail"] ∧
+    Driver.Dh.l1Toks (.generated [1] [2] none) = ["ok", "01", "02"] := by decide +kernel
+
+open Percival.Model.DHStep Percival.Driver Percival.Proofs.DhAns in
+/-- **`pmodel dhmon` prints `ok` on the model's printed answer** — `Driver/Dhmon.mon`, the whole function the
+executable applies to the tokens of the operation line and of the answer line, evaluated on printed text: for a
+32-byte private value and blinding (any peer value), on the operation line `pub` / `pubf k` / `compute` / `computef k`
+(the fields after the private value are not read by the monitor) and
+
+* the tokens of what the model of crypto_dh.c computes (`generatePub` / `compute`: `ok <value>`, or `fail`), or
+* `fail` (a call may fail), or
+* the L1 tokens of the line `pmodel dh` prints for the call (`stepOp`: the specified value; `fail | fail` with a
+  failing blinding), or
+* the tokens of the line `pmodel dhmon model` prints (`Dhmon.model`),
+
+the verdict is `ok`; and an answer `ok <v>` is accepted only if `v` is the specified value. -/
+theorem monitor_accepts_printed (priv b : List UInt8) (hp : priv.length = 32) (hb : b.length = 32)
+    (y : List UInt8) (k bt : String) :
+    (∀ op ∈ [["pub", hexOfBytes priv, bt], ["pubf", k, hexOfBytes priv, bt]],
+      (Dhmon.mon () op (Dh.optToks (generatePub priv b))).2 = "ok" ∧
+      (Dhmon.mon () op (Dh.optToks none)).2 = "ok" ∧
+      (Dhmon.mon () op (Dh.l1Toks (stepOp (.pub priv (some b))))).2 = "ok" ∧
+      (Dhmon.mon () op (Dh.l1Toks (stepOp (.pub priv none)))).2 = "ok" ∧
+      (Dhmon.mon () op (Dsmon.splitCh ' ' (Dhmon.model () op).2)).2 = "ok" ∧
+      ∀ v, (Dhmon.mon () op (Dh.optToks (some v))).2 = "ok" ↔ v = specPow 2 priv) ∧
+    (∀ op ∈ [["compute", hexOfBytes y, hexOfBytes priv, bt], ["computef", k, hexOfBytes y, hexOfBytes priv, bt]],
+      (Dhmon.mon () op (Dh.optToks (compute y priv b))).2 = "ok" ∧
+      (Dhmon.mon () op (Dh.optToks none)).2 = "ok" ∧
+      (Dhmon.mon () op (Dh.l1Toks (stepOp (.compute y priv (some b))))).2 = "ok" ∧
+      (Dhmon.mon () op (Dh.l1Toks (stepOp (.compute y priv none)))).2 = "ok" ∧
+      (Dhmon.mon () op (Dsmon.splitCh ' ' (Dhmon.model () op).2)).2 = "ok" ∧
+      ∀ v, (Dhmon.mon () op (Dh.optToks (some v))).2 = "ok" ↔ v = specPow (Spec.DH.ofBE y) priv) := by
+  have hpub : generatePub priv b = some (want (.pub priv)) := by
+    rw [generatePub_eq priv b hp hb]; simp only [want, exec_spec_value, Spec.DH.pub]
+  have hcomp : compute y priv b = some (want (.compute y priv)) := by
+    rw [compute_eq y priv b hp hb]; simp only [want, exec_spec_value, Spec.DH.shared]
+  have key : ∀ (op : List String) (o : MOp), Dhmon.parseOp op = some o → ∀ model : Option (List UInt8),
+      (Dhmon.mon () op (Dh.optToks (some (want o)))).2 = "ok" ∧
+      (Dhmon.mon () op (Dh.optToks none)).2 = "ok" ∧
+      (Dhmon.mon () op (Dh.l1Toks (.value (want o) model))).2 = "ok" ∧
+      (Dhmon.mon () op (Dh.l1Toks .failed)).2 = "ok" ∧
+      (Dhmon.mon () op (Dsmon.splitCh ' ' (Dhmon.model () op).2)).2 = "ok" ∧
+      ∀ v, (Dhmon.mon () op (Dh.optToks (some v))).2 = "ok" ↔ v = want o := by
+    intro op o hop model
+    refine ⟨?_, ?_, ?_, mon_l1Toks_failed op o hop, ?_, ?_⟩
+    · rw [mon_optToks op o _ hop]; simp [ansOfOpt, monStep]
+    · rw [mon_optToks op o _ hop]; simp [ansOfOpt, monStep]
+    · rw [mon_l1Toks_value op o _ _ hop]; simp [monStep]
+    · rw [model_line op o hop, ← Dh.showOpt, split_opt, mon_optToks op o _ hop]; simp [ansOfOpt, monStep]
+    · intro v
+      rw [mon_optToks op o _ hop]
+      by_cases h : v = want o <;> simp [ansOfOpt, monStep, h]
+  constructor
+  · intro op hop
+    have hop' : Dhmon.parseOp op = some (.pub priv) := by
+      rcases List.mem_cons.1 hop with rfl | hop
+      · exact parseOp_pub priv bt
+      · rw [List.mem_singleton.1 hop]; exact parseOp_pubf k priv bt
+    have := key op _ hop' (generatePub priv b)
+    simpa only [hpub, stepOp, want] using this
+  · intro op hop
+    have hop' : Dhmon.parseOp op = some (.compute y priv) := by
+      rcases List.mem_cons.1 hop with rfl | hop
+      · exact parseOp_compute y priv bt
+      · rw [List.mem_singleton.1 hop]; exact parseOp_computef k y priv bt
+    have := key op _ hop' (compute y priv b)
+    simpa only [hcomp, stepOp, want] using this
+
+example : (List.replicate 32 (7 : UInt8)).length = 32 := List.length_replicate ..
+open Percival.Model.DHStep Percival.Driver in
+/-- the monitor executable does reject a printed wrong value, and an unreadable answer -/
+example : (Dhmon.mon () ["pubf", "3", hexOfBytes (List.replicate 32 0), "-"] ["ok", "010203"]).2 ≠ "ok" ∧
+    (Dhmon.mon () ["pubf", "3", hexOfBytes (List.replicate 32 0), "-"] ["ok", "xyz"]).2 ≠ "ok" := by
+  constructor
+  · rw [show ["ok", "010203"] = Dh.optToks (some [1, 2, 3]) by decide +kernel,
+      Proofs.DhAns.mon_optToks _ (.pub (List.replicate 32 0)) _ (Proofs.DhAns.parseOp_pubf ..)]
+    rw [if_neg (by decide +kernel)]; decide
+  · decide +kernel
 
 end Percival.C10
